@@ -178,10 +178,20 @@ def check_spec(case) -> Outcome:
             out.label("excluded:duplicate-mapping-keys")
             return out
         spec = {s: values[i % len(values)] if values else 0 for i, s in enumerate(strs)}
+        if any(v != 0 and (abs(v) < 1e-4 or abs(v) >= 1e6 or float(f"{v:.6g}") != v) for v in spec.values()):
+            out.label("mapping-value:many-digits-or-extreme")
     try:
         lc = LinearConstraints.from_spec(spec, variable_names=names)
     except Exception as e:
         # a rejection of a linear specification is counted (e.g. operators fused with a sign)
+        if form == "mapping":
+            # ... but the number a mapping key is set to takes no part in parsing: the same keys set to 0 must be refused too
+            try:
+                LinearConstraints.from_spec({k: 0 for k in spec}, variable_names=names)
+                out.fail("mapping-value-changes-acceptance", f"{spec!r} is refused ({type(e).__name__}: {str(e)[:100]}) but the same keys set to 0 are accepted", form=form)
+                return out
+            except Exception:
+                pass
         out.rejected = True
         out.label("rejected:" + type(e).__name__)
         out.nontrivial = False
@@ -318,7 +328,9 @@ def gen_spec():
                 rhs = _Builder(draw(st.lists(st.integers(0, 359), min_size=1, max_size=12)), nv).lin(1)
             cons.append({"lhs": lhs, "rhs": rhs})
         form = draw(st.sampled_from(["string", "string", "list", "mapping"]))
-        vals = draw(st.lists(st.sampled_from([0, 1, -2, 3.5, 10]), min_size=1, max_size=3))
+        # (mapping values are numbers, never text: all their digits count, whatever their magnitude)
+        vals = draw(st.lists(st.one_of(st.sampled_from([0, 1, -2, 3.5, 10, 3.14159265358979, 1234567.5, 0.00001, -7.25e15, 1e-12, 2**40 + 1]),
+                                       st.floats(min_value=-1e9, max_value=1e9, allow_nan=False, allow_infinity=False)), min_size=1, max_size=3))
         return {"nvars": nv, "constraints": cons, "form": form, "values": vals, "rhs_leading_sign": draw(st.integers(0, 9)) == 0}
 
     return strat()
